@@ -359,13 +359,65 @@ SPEC = {
 }
 
 
+def check_classifier(ctx):
+    """`classify` (Python, used to attribute failures to the open finding) must be the predicate KnownClass that the
+    theorems of Props/C10.v exclude: evaluate both on generated inputs (version `kc` of the model runner)."""
+    import random
+    import vlib
+    runner, rlog = vlib.build_runner(SPEC['runner'])
+    if runner is None:
+        return            # standard_check reports the broken runner
+    rng = random.Random(ctx.seed * 7919 + 10)
+    lines = [c[0] for c in fixed_cases()]
+    for k in range(300 if ctx.tier == 'quick' else 6000):
+        objects, trailer, order, ids, dang = gen_doc(rng, rng.choice(['tiny', 'normal']))
+        specs = gen_bookmarks(rng, order, ids, dang)
+        n = len(objects)
+        start = rng.choice([0, 1, 1, 2, n, n + 1, rng.randint(0, 2 * n + 2), 1000, U32 - n])
+        lines.append(make_case(objects, trailer, specs, start))
+    kc = [l.replace('(case %s ' % VER, '(case kc ', 1) for l in lines]
+    out = vlib.run_lines(runner, kc, timeout=600, shards=8)
+    hits = 0
+    for l, o in zip(lines, out):
+        py = classify(l, {}, None, None, '') is not None
+        hits += py
+        if o.strip() != '(known %d)' % (1 if py else 0):
+            ctx.violation('classifier_%d' % ctx.seed, {
+                'kind': 'known-class-mirror-broken', 'property': 'C10', 'case': l, 'python_classify': py, 'coq_KnownClass': o,
+                'note': 'props/c10.py classify and KnownClass of coq/Proofs/RenumberProofsTop.v disagree'}, found_input=False)
+            return
+    ctx.notes.append('classify == KnownClass on %d generated inputs (%d in the class)' % (len(lines), hits))
+
+
 def run(ctx):
+    check_classifier(ctx)
     return propcheck.standard_check(ctx, SPEC)
 
 
 MANIFEST = {
-    'level_text': 'TBD',
-    'level_note': 'TBD',
-    'technique': 'Coq proof (loop invariant of the worklist traversal, re-keying lemmas on sorted association lists) + differential correspondence',
+    'level_text': 'Machine-checked proof (Coq) about a branch-for-branch model of renumber_objects_with / renumber_objects '
+                  '(page-order pass, dense pass, renumber_bookmarks_with) and traverse_objects: for every document with '
+                  'sorted keys, every start value with start + n <= 2^32, outside the known-finding class, the call returns '
+                  'and there is a renaming rho, one-to-one on the ids the document uses and onto those of the result, with '
+                  'trailer, every reachable object and every bookmark target equal to the originals with references renamed, '
+                  'same reachable set up to rho, every reference resolving to the same content, dangling references and '
+                  'bookmark targets staying dangling, page_iter of the result = map rho of page_iter before '
+                  '(C10_renumber_iso); numbers are start..start+n-1 with generations kept and max_id the last one '
+                  '(C10_renumber_dense); start + n > 2^32 panics (C10_fits_necessary); traverse_objects terminates within '
+                  'its fuel and rewrites each reachable reference exactly once (C10_traverse_once). The property is REFUTED '
+                  'inside the class "a reachable reference or bookmark target names no object and its number lies in '
+                  '[start, start+n)" (C10_KnownClass_witness, open finding dangling-in-range, re-confirmed on the crate on '
+                  'every run) and was refuted on the pinned code in four more ways, now repaired by fix: commits '
+                  '(C10_*_v0_refuted over the kept model RenumberV0). Tied to the implementation by differential runs on '
+                  'random reference graphs x start values, comparing objects, trailer, max_id, bookmark table and page_iter.',
+    'level_note': 'Trusted: Coq kernel; hand-written models of renumber_objects_with, traverse_objects (for reference-rewriting '
+                  'actions only), add_bookmark, PageTreeIter (shared with C12) and Document::dereference, tied by '
+                  'correspondence; association lists for BTreeMap (sorted_keys is the representation invariant, a hypothesis) '
+                  'and HashMap<u32, Bookmark>; the page counter i32 is not modelled (2^31 pages); the Python classifier of the '
+                  'known class mirrors the Coq predicate KnownClass (C10_KnownClass_spec); extraction/OCaml driver; Rust '
+                  'harness whose verdict discovers the renaming by walking both documents in lock step. No axioms '
+                  '(Print Assumptions: closed under the global context).',
+    'technique': 'Coq proof (loop invariant of the worklist traversal, re-keying lemmas on sorted association lists, composition of '
+                 'two pass isomorphisms, simulation of the read-only queries under renaming) + differential correspondence',
     'design_ref': 'DESIGN.md 6 C10',
 }
